@@ -9,7 +9,7 @@ for d in $(ls -d $out/$id/[0-9]* 2>/dev/null | sort); do
   python3 - $dst/meta.json $last <<'PY'
 import json,sys
 p,n=sys.argv[1],int(sys.argv[2])
-m=json.load(open(p)); m['n_in_round']=m.get('n'); m['n']=n; m['round']=3
+m=json.load(open(p)); m['n_in_round']=m.get('n'); m['n']=n; m['round']=4
 json.dump(m,open(p,'w'),indent=1)
 PY
   echo "$d -> $dst"
